@@ -54,7 +54,8 @@ def main():
             return 2
         demo = os.path.join(dest, 'DEMO.py')
         if os.path.exists(demo):
-            rc0, o0 = sh([PY, demo], cwd=scratch)
+            rc0, o0 = sh([PY, demo], cwd=scratch,
+                         env=dict(os.environ, PYTHONPATH=scratch))
             meta['demo_exit_clean'] = rc0
         rc, out = sh(['git', 'apply', os.path.join(dest, 'patch.diff')],
                      cwd=scratch)
@@ -67,7 +68,8 @@ def main():
         meta['pytest'] = out.strip().splitlines()[-1] if out.strip() else ''
         meta['pytest_exit'] = rc
         if os.path.exists(demo):
-            rc1, o1 = sh([PY, demo], cwd=scratch)
+            rc1, o1 = sh([PY, demo], cwd=scratch,
+                         env=dict(os.environ, PYTHONPATH=scratch))
             meta['demo_exit_patched'] = rc1
             meta['demo_tail'] = o1.strip().splitlines()[-6:]
         env = dict(os.environ, VERIF_NO_EVIDENCE='1',
@@ -79,6 +81,10 @@ def main():
             viol = [l for l in out.splitlines()
                     if l.startswith('  rule=')]
             res[c] = {'exit': rc, 'violations': viol[:6]}
+            if rc not in (0, 1):
+                res[c]['error'] = [l for l in out.splitlines()
+                                   if 'ANALYSIS-ERROR' in l][:3]
+                print(c, 'ANALYSIS ERROR', res[c]['error'])
         meta['checks'] = res
         meta['detected_by'] = [c for c, r in res.items() if r['exit'] == 1]
         meta['analysis_errors'] = [c for c, r in res.items()
